@@ -184,6 +184,18 @@ class NamedHolder:  # two occurrences -> the type is a $ref / $defs entry named 
 
 
 @dataclass
+class XLeaf:
+    x: int = 0
+
+
+@dataclass
+class XRef:  # references carrying user-supplied keywords next to them: the older dialects move the $ref into an `allOf`
+    a: Annotated[XLeaf, schema(extra={"allOf": [{"title": "t"}]})]
+    b: Optional[XLeaf] = None
+    c: Annotated[Union[int, str, None], schema(extra={"anyOf": [{"title": "u"}]})] = None
+
+
+@dataclass
 class Cat:
     name: str = "c"
 
@@ -604,7 +616,7 @@ for _a in ERROR_ATTRS:
 TYPES = {
     "Conv": Conv, "ConvSub": ConvSub, "ConvHolder": ConvHolder, "ConvDC": ConvDC, "PreConv": PreConv, "PreConvHolder": PreConvHolder,
     "Obj": Obj, "ObjDC": ObjDC, "PreObj": PreObj, "ObjHolder": ObjHolder, "Rec": Rec, "RecHolder": RecHolder,
-    "Named": Named, "NamedHolder": NamedHolder, "Cat": Cat, "Dog": Dog, "PetU": PetU, "PetM": PetM, "LitA": LitA, "LitU": LitU,
+    "Named": Named, "NamedHolder": NamedHolder, "XRef": XRef, "Cat": Cat, "Dog": Dog, "PetU": PetU, "PetM": PetM, "LitA": LitA, "LitU": LitU,
     "Sch": Sch, "SchStr": SchStr, "SchDC": SchDC, "SchHolder": SchHolder,
     "Aliased": Aliased, "AliasedHolder": AliasedHolder,
     "Ordered": Ordered, "OrderedHolder": OrderedHolder,
@@ -627,7 +639,7 @@ DATA = {
     "Obj": [{"a": 1}, {"a": "s", "c": 2}, {"b": "x"}, {}], "ObjDC": [{"a": 1}, {"a": 1, "b": "z"}, {"b": "only"}], "PreObj": [{"a": 1}, {}],
     "ObjHolder": [{"o": {"a": 1}, "d": {"a": 2}, "p": {"a": 3}}],
     "Rec": [{"v": 1, "next": {"v": 2, "next": None}}, {"v": 1}], "RecHolder": [{"r": {"v": 1, "next": {"v": 2}}, "rs": [{"v": 3}]}],
-    "Named": [{"x": 1}], "NamedHolder": [{"a": {"x": 1}, "b": {"x": 2}}], "Cat": [{"name": "tom"}],
+    "Named": [{"x": 1}], "NamedHolder": [{"a": {"x": 1}, "b": {"x": 2}}], "XRef": [{"a": {"x": 1}, "c": "s"}], "Cat": [{"name": "tom"}],
     "PetU": [{"type": "Cat", "name": "tom"}, {"type": "Kitty", "name": "tom"}, {"type": "P_Cat"}, {"type": "F_Cat"}, {"type": "Dog"}],
     "PetM": [{"type": "kitty", "name": "tom"}, {"type": "Dog", "name": "rex"}, {"type": "Doggo", "name": "rex"}, {"type": "Cat"}],
     "LitA": [{"x": 1}, {"kind": "first", "x": 1}],
@@ -661,7 +673,7 @@ VALUES = {
     "Obj": [lambda: Obj(1, "x", 2)], "ObjDC": [lambda: ObjDC(1, "z")], "PreObj": [lambda: PreObj(1, "q")],
     "ObjHolder": [lambda: ObjHolder(Obj(1, "x", 2), ObjDC(2), PreObj(3))],
     "Rec": [lambda: Rec(1, Rec(2))], "RecHolder": [lambda: RecHolder(Rec(1, Rec(2)), [Rec(3)])],
-    "Named": [lambda: Named(1)], "NamedHolder": [lambda: NamedHolder(Named(1), Named(2))], "PetU": [lambda: Cat("tom"), lambda: Dog("rex")], "PetM": [lambda: Cat("tom"), lambda: Dog("rex")],
+    "Named": [lambda: Named(1)], "NamedHolder": [lambda: NamedHolder(Named(1), Named(2))], "XRef": [lambda: XRef(XLeaf(1), XLeaf(2), 3)], "PetU": [lambda: Cat("tom"), lambda: Dog("rex")], "PetM": [lambda: Cat("tom"), lambda: Dog("rex")],
     "LitA": [lambda: LitA(1)], "LitU": [lambda: LitA(1), lambda: LitB(2)],
     "Sch": [lambda: 3], "SchHolder": [lambda: SchHolder(Sch(1), [Sch(2)])], "SchDC": [lambda: SchDC(1)],
     "Aliased": [_aliased], "AliasedHolder": [lambda: AliasedHolder(_aliased(), 2)],
@@ -770,7 +782,7 @@ def _ops():
     for impl in ("pool_default_type_name", "orig_default_type_name"):
         add(["PetU", "NamedHolder", "Base", "UnionSub", "BaseHolder", "Named"], op="set", path="settings.default_type_name", impl=impl)
     for impl in ("jsv_draft7", "jsv_2019_09", "jsv_oas30", "jsv_oas31", "jsv_2020_12"):
-        add(["NamedHolder", "DepReq", "Cons", "PetU", "OptInt"], op="set", path="settings.json_schema_version", impl=impl)
+        add(["NamedHolder", "DepReq", "Cons", "PetU", "OptInt", "XRef"], op="set", path="settings.json_schema_version", impl=impl)
     # --- settings.deserialization
     D = "settings.deserialization."
     for v in (True, False):
